@@ -13,6 +13,10 @@ def ulp_diff(a, b):
     a = np.asarray(a)
     b = np.asarray(b)
     if np.iscomplexobj(a):
+        # an element that was NaN (in either part) and still is NaN counts as unchanged
+        nan_both = (np.isnan(a.real) | np.isnan(a.imag)) & (np.isnan(b.real) | np.isnan(b.imag))
+        a = np.where(nan_both, 0.0, a)
+        b = np.where(nan_both, 0.0, b)
         return max(ulp_diff(a.real, b.real), ulp_diff(a.imag, b.imag))
     with np.errstate(all="ignore"):
         both_nan = np.isnan(a) & np.isnan(b)
